@@ -50,6 +50,7 @@ Print Assumptions C11_validate_flat.
 
 Theorem C11_validate_plural : forall p vn pv pc cb dflt,
   validate [NMsgPlural p vn pv [NMsgPluralCase pc 1%Z cb] dflt] = Ok tt <->
+  (write_body cb <> [] /\ write_body dflt <> []) /\
   (forallb flat_node cb = true /\ parts (write_body cb) = merge_texts (body_parts cb)) /\
   (forallb flat_node dflt = true /\ parts (write_body dflt) = merge_texts (body_parts dflt)).
 Proof. exact validate_plural. Qed.
